@@ -13,7 +13,7 @@ RULE = ("square systems n=1..8: dense, zero/tiny leading pivots at several steps
 TRUSTED = ["Coq 8.16.1 kernel + vm_compute", "Rust executor /verif/harness (Rat = i128 rationals)", "python driver (generators, Fraction residual oracle, comparators)",
            "hand-written Gallina model coq/Model/Solve.v tied to src/matrix/solve.rs by differential execution"]
 ASSUMPTIONS = ["Rust semantics of Vec/usize as modelled", "float backward stability is searched (1e-11 normwise), not proved"]
-UNPROVED = ["normwise backward error of the f64/Complex instantiation (covered by tie + search)",
+UNPROVED = ["normwise backward error of the f64/Complex instantiation (covered by tie + search; fails for Complex<f64> at extreme magnitudes: recorded finding cplx-sqmod-range)",
             "solve_lu_sound / solvers_agree are assembled from package c02's LU theorems (this file's theorems are about solve_basic)"]
 
 MANIFEST = dict(
@@ -29,7 +29,10 @@ MANIFEST = dict(
           "Fraction/float residual oracle searches for a failing input; the measured distribution of row exchanges per system is in the evidence."),
     note=("Float backward stability (1e-11 normwise) is searched, not proved.  The LU half of the property (solve_lu_sound, solvers_agree) "
           "rests on package c02's theorems (Proofs/Solve.v: solvers_agree_from_lu_sound composes them); here solve_lu is tied and searched. "
-          "Completeness needs PivLaws (abs x = 0 <-> x = 0, x <> 0 -> 0 < |x|, not |x| < 0): MagLaws of DESIGN Appendix E is too weak."),
+          "Completeness needs PivLaws (abs x = 0 <-> x = 0, x <> 0 -> 0 < |x|, not |x| < 0): MagLaws of DESIGN Appendix E is too weak. "
+          "Recorded finding cplx-sqmod-range (findings/C01-complex-extreme-scale.md): for Complex<f64> entries with |z|^2 outside the normal "
+          "f64 range both solvers return NaN on perfectly conditioned systems (unscaled modulus and division in src/complex/mod.rs); an "
+          "adversarial family and two corpus witnesses exercise it on every run, keyed by the input, so any other failure stays a violation."),
     technique="Coq proof over an abstract field + model/implementation differential execution (vm_compute vs Rust executor) + exact residual oracle",
     design="7 (C01)")
 
